@@ -225,17 +225,27 @@ class SymEx:
         """Incremental linearisation around the models of `query`: ('sat', faithful model),
         ('unsat', None) or ('unknown', last model)."""
         c = self.c
-        for rnd in range(6):
+        old_to = c.ex.query_timeout_ms
+        try:
+            return self._refined_(query, m)
+        finally:
+            c.solver.set('timeout', old_to)
+
+    def _refined_(self, query, m):
+        c = self.c
+        for rnd in range(4):
             try:
                 if not c.refine(m):
                     return 'sat', m
+                # refinement re-checks are cheap or not worth it: short timeout
+                c.solver.set('timeout', min(c.ex.query_timeout_ms, 8000))
                 if rnd == 0:
                     # same inputs, transcendental atoms now pinned near their true values
                     r, m2 = c._check(query, *c.pins(m))
                     if r == 'sat':
                         m = m2
                         continue
-                r, m2 = c._check(query, portfolio=True)
+                r, m2 = c._check(query)
             except C.BudgetExceeded:
                 break
             if r == 'unsat':
